@@ -66,54 +66,47 @@ def _printer_model(repo):
         if isinstance(n, ast.Assign) and any(is_name(t, 'op_priority') for t in n.targets):
             prio = fold(n.value, {})
     need(prio, 'imperative/expr.py: op_priority table not found (the printer does not decide brackets from priorities)')
+    from ..streval import StrEval, Operand, bracket_decision, Unsupported
     f = repo.func(EXPR, 'Op.__str__')
     pr = repo.func(EXPR, 'Op.priority')
+    classes = {c.name for c in repo.subclasses_of(repo.cls(EXPR, 'Expr')) if c.module.rel == EXPR} | {'Expr'}
+    # priorities of the unary operators: Op.priority evaluated for a node with one operand
     un = {}
-    for r in ast.walk(pr.node):
-        if isinstance(r, ast.Return) and isinstance(r.value, ast.IfExp) and isinstance(r.value.body, ast.Constant) and isinstance(r.value.orelse, ast.Constant):
-            cp = compare_parts(r.value.test)
-            need(cp and isinstance(cp[2], ast.Constant), 'Op.priority: unary priorities not understood')
-            un[cp[2].value] = r.value.body.value
-            un['~' if cp[2].value == '-' else '-'] = r.value.orelse.value
-    need(set(un) == {'-', '~'}, 'Op.priority: priorities of the unary operators not found')
+    for tok in ('-', '~'):
+        try:
+            un[tok] = StrEval(pr.node, tok, [Operand('a', 'Atom', 0)], None, classes, {'op_priority': prio}).run()
+        except Unsupported as ex:
+            need(False, 'Op.priority: priorities of the unary operators not understood (%s)' % ex)
+    need(all(isinstance(v, int) for v in un.values()), 'Op.priority: priorities of the unary operators not found')
 
-    def cmp_of(call):
-        need(isinstance(call, ast.Call) and call_name(call) == 'bracket' and len(call.args) == 2 and isinstance(call.args[1], ast.Lambda),
-             'Op.__str__: operand is not printed through bracket(arg, lambda q: ..)')
-        cp = compare_parts(call.args[1].body)
-        need(cp and cp[0] in (ast.Lt, ast.LtE), 'Op.__str__: bracket condition is not `q < p` / `q <= p`')
-        idx = call.args[0].slice.value if isinstance(call.args[0], ast.Subscript) and isinstance(call.args[0].slice, ast.Constant) else None
-        return idx, cp[0]
+    def cmp_of(op, n, which, p):
+        """the comparison `q <cmp> p` under which an operator operand of priority q is bracketed"""
+        try:
+            d = [bracket_decision(f.node, op, n, which, 'Op', q, p, classes) for q in (p - 1, p, p + 1)]
+        except Unsupported as ex:
+            need(False, 'Op.__str__: the bracket decision for `%s` is outside what the printer model reads (%s)' % (op, ex))
+        if d == [True, False, False]:
+            return ast.Lt
+        if d == [True, True, False]:
+            return ast.LtE
+        need(False, 'Op.__str__: operand %d of `%s` is bracketed for priorities below / at / above its own as %s: not a threshold at the own priority' % (which, op, d))
     rules = {}
-    arith = None
-    unary = {}
-    for n in ast.walk(f.node):
-        if isinstance(n, ast.If):
-            cp = compare_parts(n.test)
-            if cp and cp[0] is ast.In and path_of(cp[1]) == 'self.op' and isinstance(cp[2], (ast.Tuple, ast.List)):
-                arith = [e.value for e in cp[2].elts]
-                for branch, key in ((n.body, 'arith'), (n.orelse, 'other')):
-                    got = {}
-                    for st in branch:
-                        for c in ast.walk(st):
-                            if isinstance(c, ast.Call) and call_name(c) == 'bracket':
-                                i, op = cmp_of(c)
-                                got[i] = op
-                    need(set(got) == {0, 1}, 'Op.__str__: both operands of a binary operator must go through bracket()')
-                    rules[key] = (got[0], got[1])
-            if cp and cp[0] is ast.Eq and path_of(cp[1]) == 'self.op' and isinstance(cp[2], ast.Constant) and cp[2].value in ('-', '~'):
-                for branch, op in ((n.body, cp[2].value), (n.orelse, '~' if cp[2].value == '-' else '-')):
-                    for st in branch:
-                        for c in ast.walk(st):
-                            if isinstance(c, ast.Call) and call_name(c) == 'bracket':
-                                unary[op] = cmp_of(c)[1]
-    need(arith and set(rules) == {'arith', 'other'} and set(unary) == {'-', '~'}, 'Op.__str__: bracket rules not understood')
-    return prio, rules, arith, un, unary
+    for o in sorted(prio):
+        rules[o] = (cmp_of(o, 2, 0, prio[o]), cmp_of(o, 2, 1, prio[o]))
+    unary = {tok: cmp_of(tok, 1, 0, un[tok]) for tok in ('-', '~')}
+
+    def always(cls_name):
+        try:
+            return all(bracket_decision(f.node, o, 2, i, cls_name, 10 ** 5, prio[o], classes) for o in sorted(prio) for i in (0, 1)) and \
+                all(bracket_decision(f.node, tok, 1, 0, cls_name, 10 ** 5, un[tok], classes) for tok in ('-', '~'))
+        except Unsupported as ex:
+            need(False, 'Op.__str__: the bracket decision for a %s operand is outside what the printer model reads (%s)' % (cls_name, ex))
+    return prio, rules, always, un, unary
 
 
 def rule_p2(repo):
     res = RuleResult('C20.P2', 'the brackets Op.__str__ writes make the printed text re-read with the same nesting', floor=30)
-    prio, rules, arith, unprio, unary = _printer_model(repo)
+    prio, rules, always, unprio, unary = _printer_model(repo)
     el, cl = _ladders(repo)
     # level of each operator token: larger number = looser; expression levels are all tighter than condition levels
     lev, side = {}, {}
@@ -139,7 +132,7 @@ def rule_p2(repo):
                         a, prio[a], b, prio[b], lev[a], lev[b]), '%s:1' % EXPR)
     # bracketing of an operand of equal priority follows the side on which the grammar recurses
     for o in ops:
-        lcmp, rcmp = rules['arith' if o in arith else 'other']
+        lcmp, rcmp = rules[o]
         s = side[o]
         # the side the grammar recurses on may omit brackets at equal priority; the other side must bracket
         need_left = ast.Lt if s == 'left' else ast.LtE
@@ -162,15 +155,9 @@ def rule_p2(repo):
                     open_classes.add(call_name(r.value).split('.')[-1])
     need(open_classes, 'parser2: no production that ends in an open condition (if-then-else / forall) found')
     strf = repo.func(EXPR, 'Op.__str__')
-    br = need(strf.nested.get('bracket'), 'Op.__str__: helper bracket not found')
-    always = set()
-    for n in ast.walk(br.node):
-        if isinstance(n, ast.If) and isinstance(n.test, ast.Call) and call_name(n.test) == 'isinstance' and len(n.test.args) == 2 and \
-                any(isinstance(x, ast.Return) and isinstance(x.value, ast.BinOp) and "'('" in src(x.value) for st in n.body for x in ast.walk(st)):
-            t = n.test.args[1]
-            always |= {e.id for e in (t.elts if isinstance(t, (ast.Tuple, ast.List)) else [t]) if isinstance(e, ast.Name)}
+    br = strf
     for c in sorted(open_classes):
-        ok = c in always
+        ok = always(c)
         res.add('%s :: Op.__str__ :: open-operand(%s)' % (EXPR, c), ok,
                 'always bracketed as an operand' if ok else
                 'a %s operand is printed without brackets: its last part extends as far to the right as possible, so (if c then a else b) & X '
